@@ -5,7 +5,7 @@ CONSTANTS
   MaxTime = 1000
   TickSteps = {1, 2}
   MaxClk = 1000
-  ExpireCmp = ">="
+  FixOnRefresh = TRUE
   Depth = 60
 INVARIANT Emit
 CHECK_DEADLOCK FALSE
